@@ -236,9 +236,9 @@ PROPS['C12'] = dict(
     level_note="Trusted: z3 (incl. strings for the _no_prune keys), the encoder, A-SUMMARY, A-DEEPCOPY. Name collisions are excluded by precondition (known finding F-NAME).",
 )
 
-for _p in ('C01', 'C03', 'C06', 'C07'):
+for _p in ('C01', 'C03', 'C06', 'C07', 'C13'):
     PROPS[_p].setdefault('static', [])
-    PROPS[_p]['static'] = list(PROPS[_p]['static']) + [('lean-meta-lemmas-M_LFP-From0_inv', ST.lean_meta)]
+    PROPS[_p]['static'] = list(PROPS[_p]['static']) + [('lean-meta-lemmas-M_LFP-From0_inv-M_PERM', ST.lean_meta)]
 
 PROPS['C08']['lemmas'] = ['L_Idx_bound', 'L_FlatOff_uniform']
 PROPS['C11']['lemmas'] = ['L_Idx_bound', 'L_FlatOff_uniform']
@@ -258,7 +258,7 @@ PROPS['C05']['undecided_clauses'] = ["optimality w.r.t. the TRUE conditioned rew
                                      "the inclusion final[s] within reach[s] follows from the proved solve-level facts (final = ArgEqR over FilterAlive(FilterLab(input, reach[s])) whose labels lie in reach[s] by the proved lemmas L_ArgEqR_from, L_FA_from, L_FL_from) but is not stated as a single discharged obligation"]
 PROPS['C10']['level_text'] += SOLVE_TXT + " The frame of the whole suffix is discharged: solve modifies only the five mutable fields of its own nodes and the fields of the Solver object it allocates; every list object that existed at entry (in particular every caller-owned inner transition list, which the nodes alias) and every field of the StochasticGame object keep their content."
 PROPS['C10']['level_note'] = "Trusted: z3/cvc5, the encoder's heap model, A-BRIDGE. 'Solving again returns identical results' = this frame + the static determinism scan; the repeated-solve sequences themselves are exercised by the bounded executable contracts."
-PROPS['C06']['undecided_clauses'] = [PROPS['C06']['undecided_clauses'][0], "Solver.__init__ (math.log/math.floor) is an assumed contract whose constants are re-computed from the real source by a static obligation; Node.__eq__ is not under contract (it is never called by the cone)"]
+PROPS['C06']['undecided_clauses'] = [PROPS['C06']['undecided_clauses'][0], "Solver.__init__ is verified from its real body (fields, frame, floor == 6); what is ASSUMED is one fact about the library: math.log(10**-6, 10) returns a float in [-6, -5) (CPython: -5.999999999999999), re-evaluated from the real source by the static obligation solver-constants on every run; Node.__eq__ is under contract for C10 only (no side effect) and is never called by the cone"]
 PROPS['C06']['level_text'] += SOLVE_TXT + " The only exception the suffix lets escape is the ValueError of the reachability phase, exactly when pruning is on and the reported rp[0] is 0."
 
 PROPS['C05']['undecided_clauses'] = ["optimality w.r.t. the TRUE conditioned rewards in cyclic games (C02's accuracy clause)"]
@@ -287,9 +287,21 @@ PROPS['C13']['level_text'] += (" Transition order: since every routine is proved
                                " neighbouring transitions (every reordering is a product of such exchanges), and L_ArgEqR_mem / L_FA_mem characterise membership in the"
                                " arg-lists and in the conditioned lists without reference to positions (so the reported action SETS and the kept transition SETS agree for any reordering).")
 PROPS['C13']['undecided_clauses'] = ["C13 relates TWO runs on two presentations; a contract speaks about one run. Mechanised: each routine equals a spec function of its input list (all inputs), and the spec functions are invariant under"
-                                     " exchanging neighbouring transitions / have position-free membership (PERM_LEMMAS). NOT mechanised: that every permutation is a product of neighbour exchanges (textbook fact), the renaming of actions"
+                                     " exchanging neighbouring transitions / have position-free membership (PERM_LEMMAS); that invariance under neighbour exchanges at every position implies invariance under EVERY permutation is the Lean theorem M_PERM / M_PERM_pred (lean/Meta.lean, checked on every run; the reading of the SMT array-lists as Lean lists is by hand). NOT mechanised: the renaming of actions"
                                      " (labels are only compared for equality: argued), and the RENUMBERING OF STATES, which changes the Gauss-Seidel sweep order and hence the iterates",
                                      PROPS['C13']['undecided_clauses'][1]]
+
+# ---- A-SUMMARY, frame half, inside C12's own cone: run_games is verified against the summary "solve modifies nothing of the description";
+# the concrete statement behind it -- the suffix of solve and every conditioning method leave every pre-existing list object and every
+# field of the game object alone -- is discharged in the same run (solve@typed composes the callees' contracts; the frames of the
+# conditioning methods are those contracts' own obligations)
+_C12_EXTRA = ['tad.StochasticGame.solve@typed'] + FRAME_CONE
+PROPS['C12']['functions'] = PROPS['C12']['functions'] + [q for q in _C12_EXTRA if q not in PROPS['C12']['functions']]
+PROPS['C12']['lemmas'] = list(PROPS['C12'].get('lemmas', [])) + [l for l in PROPS['C10'].get('lemmas', []) if l not in PROPS['C12'].get('lemmas', [])]
+PROPS['C12']['level_text'] += (" The frame half of the summary contract of solve (A-SUMMARY: the description is not modified, so the unpruned solve of the same copy and every later game see"
+                               " what the file denotes) is discharged in this cone on the concrete code: the frame of the typed suffix of StochasticGame.solve and of every conditioning method.")
+PROPS['C12']['undecided_clauses'] = ["that the summary contracts hold of the real StochasticGame methods: the FRAME half (nothing of the description is modified) is discharged in this cone (solve@typed and the conditioning methods); the FUNCTIONAL half (the result is a function of the description and the mode) is the static determinism scan of C10 -- linked by hand",
+                                     PROPS['C12']['undecided_clauses'][1]]
 
 PROPS['C16']['level_text'] += (" conditionalrewards.main is verified against summaries of the three functions it calls: the batch runs on what was read from the file named by -f, and"
                                " that result is saved under the same name exactly when -s is given (nothing is saved otherwise, nor when the input is refused).")
